@@ -22,7 +22,7 @@ func init() {
 			"(overwrite, or no plugin exists, or the comparison succeeded with new > existing); the first effect is always the clean-up; after it the directory source reaches only CopyDirToDir and the file source only CopyToDir; " +
 			"(d) copies happen only after the clean-up returned nil or not-exist, into SysPath(name), from the source that was validated; success is returned only after a copy succeeded, with the new plugin's metadata; " +
 			"(e) version comparison: both versions pass the module's validity predicate, whose constant pattern classifies the semver.org corpus correctly, before x/mod Compare(\"v\"+new, \"v\"+existing); arguments in (new, existing) order; " +
-			"(f) discovery: every WalkDir callback of the install tree returns SkipDir for each directory other than the walk root (path compared with the root); candidates are regular files only; the (executable, name) pair returned is parsed from that very file — held in two shared variables, or in the two fields of a record the callback built for that entry and nobody writes afterwards; two executables are refused; " +
+			"(f) discovery: every WalkDir callback of the install tree returns SkipDir for each directory other than the walk root (path compared with the root) and SkipDir / SkipAll for nothing but a directory; a walk that lives in a helper taking the per-entry action as a function value is certified as a pure walk (the action is only called by the callback, with the callback's path and entry, its answer is returned) and each caller's action is then judged as a callback, under the facts the helper established before the call; candidates are regular files only; the (executable, name) pair returned is parsed from that very file — held in two shared variables, or in the two fields of a record the callback built for that entry and nobody writes afterwards; two executables are refused; " +
 			"(g) binName and parsePluginName use the same constant prefix, so the copied executable is found under the parsed name.",
 		NotCov:  "file-system behaviour of the copy itself (a copy failing half-way after the clean-up), histories of operations, the metadata the installed plugin reports (it is the metadata of the executable that was run, C17).",
 		Trusted: []string{"go/types, go/ssa", "golang.org/x/mod/semver.Compare", "path/filepath.WalkDir", "os"},
@@ -686,6 +686,37 @@ func c20Discovery(c *Ctx, INST *ssa.Function) {
 			n++
 			c.SeenFn(k.cb.String())
 			c20SkipDirW(c, k)
+			// fifth pass: the walk skeleton in a helper that hands every entry to a function its caller named (c20Delegates):
+			// the walk clause (SkipDir) was just decided on the helper, once for all callers; the clauses about what is done
+			// with an entry are decided on each caller's action, in the caller
+			via, why := c20Delegates(k)
+			if via == nil && why != "" {
+				c.Bad("discovery/walk-callback", "a walk that hands its entries to a function it was given is nothing but a walk: the function is only called by the WalkDir callback, with the callback's path and entry, and its answer is returned", w.InstrPos(ci), why)
+				continue
+			}
+			if via != nil {
+				for _, g := range c20Tree(w, INST) {
+					for _, site := range allCalls(g) {
+						if staticCallee(site) != f {
+							continue
+						}
+						k2 := c20ResolveVia(w, g, site, via)
+						if k2 == nil {
+							c.Unk("discovery/walk-callback", "the function handed to the walk helper is a function literal, a method value with pointer receiver or a function", w.InstrPos(site), "not recognised")
+							continue
+						}
+						n++
+						c.SeenFn(k2.cb.String())
+						c20SkipOnlyDirs(c, k2)
+						if g.Signature.Results().Len() == 3 {
+							c20CandidatesW(c, k2)
+						} else {
+							c20DirCopyW(c, k2)
+						}
+					}
+				}
+				continue
+			}
 			if f.Signature.Results().Len() == 3 {
 				c20CandidatesW(c, k)
 			} else {
@@ -721,7 +752,7 @@ func c20SkipDirW(c *Ctx, k *c20Walk) {
 	key := "discovery/skip-sub-directories/" + fnName(outer)
 	rule := "the WalkDir callback returns SkipDir for every directory entry whose path differs from the walk root (sub-directories are never entered, whatever their name)"
 	// the root as seen inside the callback
-	rd := desc(k.call.Common().Args[0])
+	rd := desc(k.rootArg())
 	rc := k.rootCell()
 	if rc < 0 {
 		c.Bad(key, rule, w.FnPos(cl), "the callback does not see the walk root "+rd)
@@ -781,6 +812,52 @@ func c20SkipDirW(c *Ctx, k *c20Walk) {
 		detail = "the callback never compares its path with the walk root (" + rootIn + "): " + detail
 	}
 	c.Check(okAll, key, rule, w.FnPos(cl), detail)
+	c20SkipOnlyDirs(c, k)
+}
+
+// c20SkipOnlyDirs (fifth pass; the clause behind seed C20-6 decided for what it says instead of by the shape of the
+// callback): SkipDir answered for an entry that is not a directory makes WalkDir skip the rest of the directory that
+// holds the entry (and SkipAll ends the walk) without an error — the top-level files after that entry are then neither
+// candidates nor copied, and the walk still succeeds. So every return of the per-entry function that can yield SkipDir
+// or SkipAll must lie behind "this entry is a directory" (d.IsDir(), or the directory bit of the entry's own type or
+// Info). For the action a walk helper runs, the facts the helper's callback established before the call count as well
+// (guardsAt) — a helper that runs the action on regular files only leaves the action no return that may skip.
+func c20SkipOnlyDirs(c *Ctx, k *c20Walk) {
+	w := c.W
+	cl := k.cb
+	d := "param:" + k.entryParam().Name()
+	info := "call:invoke:io/fs.DirEntry.Info(" + d + ")#0"
+	isDir := []string{
+		"T(call:invoke:io/fs.DirEntry.IsDir(" + d + "))",
+		"T(call:(io/fs.FileMode).IsDir(call:invoke:io/fs.DirEntry.Type(" + d + ")))",
+		"T(call:(io/fs.FileMode).IsDir(call:invoke:io/fs.FileInfo.Mode(" + info + ")))",
+		"T(call:invoke:io/fs.FileInfo.IsDir(" + info + "))",
+	}
+	key := "discovery/skip-only-directories/" + fnName(k.outer)
+	rule := "the per-entry function of a walk answers SkipDir / SkipAll only for an entry that is a directory (skipping at a file silently drops the files after it)"
+	ok, site, detail := true, w.FnPos(cl), ""
+	for _, b := range cl.Blocks {
+		r, isRet := blockTerm(b).(*ssa.Return)
+		if !isRet || len(r.Results) == 0 {
+			continue
+		}
+		rd := desc(r.Results[len(r.Results)-1])
+		if !strings.Contains(rd, "fs.SkipDir") && !strings.Contains(rd, "fs.SkipAll") && !strings.Contains(rd, "filepath.SkipDir") && !strings.Contains(rd, "filepath.SkipAll") {
+			continue
+		}
+		g := k.guardsAt(r)
+		has := false
+		for _, l := range isDir {
+			if labelHas(g, l) {
+				has = true
+			}
+		}
+		if !has {
+			ok, site, detail = false, w.InstrPos(r), "`return "+trunc(rd, 80)+"` is reachable for an entry that is not known to be a directory"
+		}
+	}
+	c.Evals++
+	c.Check(ok, key, rule, site, detail)
 }
 
 // c20Candidates: the source parser. (Kept for callers that hold the parts of a walk; the rule itself is c20CandidatesW.)
@@ -802,7 +879,6 @@ func c20Candidates(c *Ctx, P, cl *ssa.Function) {
 func c20CandidatesW(c *Ctx, k *c20Walk) {
 	w := c.W
 	P, cl := k.outer, k.cb
-	fi := w.Info(cl)
 	p := "param:" + k.pathParam().Name()
 	d := "param:" + k.entryParam().Name()
 	parser := c20NameParser(w)
@@ -836,7 +912,8 @@ func c20CandidatesW(c *Ctx, k *c20Walk) {
 	reg := "T(call:(io/fs.FileMode).IsRegular(call:invoke:io/fs.FileInfo.Mode(call:invoke:io/fs.DirEntry.Info(" + d + ")#0)))"
 	okReg := len(caps) > 0
 	for _, cp := range caps {
-		if cp.st.Block().Index == 0 || !labelHas(fi.GuardsOf(cp.st), reg) {
+		// (an action run by a walk helper: what the helper's callback established before the call holds at its entry)
+		if !labelHas(k.guardsAt(cp.st), reg) {
 			okReg = false
 		}
 	}
@@ -973,7 +1050,7 @@ func c20CandidatesW(c *Ctx, k *c20Walk) {
 			if !isParsedName(valsN[i]) {
 				okName = false
 			}
-			g := fi.GuardsOf(stN)
+			g := k.guardsAt(stN)
 			if !(labelHas(g, "EQ("+parsed+"#err,nil)") && labelHas(g, "T("+EXE+"("+p+")#0)") && labelHas(g, "EQ("+EXE+"("+p+")#err,nil)")) {
 				gates = false
 			}
@@ -983,7 +1060,7 @@ func c20CandidatesW(c *Ctx, k *c20Walk) {
 					continue
 				}
 				near := cp.st.Block() == stN.Block() || cp.st.Block().Dominates(stN.Block()) || stN.Block().Dominates(cp.st.Block())
-				if near && labelHas(g, "F("+k.innerDesc(cp.cell)+")") && labelHas(fi.GuardsOf(cp.st), "F("+k.innerDesc(cp.cell)+")") {
+				if near && labelHas(g, "F("+k.innerDesc(cp.cell)+")") && labelHas(k.guardsAt(cp.st), "F("+k.innerDesc(cp.cell)+")") {
 					marks[cp.cell] = true
 					has = true
 				}
@@ -1051,7 +1128,7 @@ func c20CandidatesW(c *Ctx, k *c20Walk) {
 				}
 				cnt++
 				lv, ev, isApp := c20AppendOne(cp.st.Val)
-				if !isApp || desc(lv) != k.innerDesc(L) || !labelHas(fi.GuardsOf(cp.st), "EQ("+parsed+"#err,nil)") {
+				if !isApp || desc(lv) != k.innerDesc(L) || !labelHas(k.guardsAt(cp.st), "EQ("+parsed+"#err,nil)") {
 					okSrc = false
 					continue
 				}
@@ -1156,39 +1233,34 @@ func c20DirCopyW(c *Ctx, k *c20Walk) {
 		c.Bad("copy/directory", "the directory copy copies entries with the module's single-file copy", w.FnPos(cl), "no copy call in the callback")
 		return
 	}
-	g := fi.GuardsOf(cp)
+	g := k.guardsAt(cp)
 	reg := "T(call:(io/fs.FileMode).IsRegular(call:invoke:io/fs.FileInfo.Mode(call:invoke:io/fs.DirEntry.Info(" + d + ")#0)))"
 	okArgs := len(cp.Call.Args) == 2 && desc(cp.Call.Args[0]) == p && c20WalkSeesOuterParam(k, cp.Call.Args[1])
-	// its error is returned
-	okErr := false
-	for _, r := range *cp.Referrers() {
-		if ret, ok := r.(*ssa.Return); ok && ret.Results[0] == ssa.Value(cp) {
-			okErr = true
-		}
-	}
-	if !okErr {
-		s := w.Summarize(cl, Mode{Kind: mErr})
-		okErr = true
-		for _, e := range s.Exits {
-			if e.Ret.Block() != cp.Block() && fi.reachHit([]state{{cp.Block().Index, 0, -1}}, nil, blocksOf(e.Ret)) {
-				if !labelHas(e.Checked, "EQ("+desc(cp)+",nil)") && !labelHas(e.Checked, "EQ("+desc(cp)+"#err,nil)") {
-					okErr = false
+	// its error is returned: every return a path from the copy can reach returns the copy's result, or lies behind
+	// `result == nil` (c20ReturnsResult — also when the copy and a `return nil` share one block, as in an action that is
+	// nothing but the copy)
+	okErr := c20ReturnsResult(w, cl, cp)
+	// every regular entry is copied: from the IsRegular true edge every path reaches the copy
+	okAll := false
+	if k.via == nil {
+		for _, b := range cl.Blocks {
+			if iff, ok := blockTerm(b).(*ssa.If); ok && condLabel(iff.Cond, true) == reg {
+				cut := map[edgeKey]bool{}
+				cutInto(fi, cp.Block(), cut)
+				if b.Succs[0] == cp.Block() {
+					okAll = true
+				} else {
+					okAll = fi.successWitness(Mode{Kind: mErr}, []state{{b.Succs[0].Index, 0, -1}}, cut) == nil
 				}
 			}
 		}
-	}
-	// every regular entry is copied: from the IsRegular true edge every path reaches the copy
-	okAll := false
-	for _, b := range cl.Blocks {
-		if iff, ok := blockTerm(b).(*ssa.If); ok && condLabel(iff.Cond, true) == reg {
-			cut := map[edgeKey]bool{}
-			cutInto(fi, cp.Block(), cut)
-			if b.Succs[0] == cp.Block() {
-				okAll = true
-			} else {
-				okAll = fi.successWitness(Mode{Kind: mErr}, []state{{b.Succs[0].Index, 0, -1}}, cut) == nil
-			}
-		}
+	} else {
+		// the test sits in the walk helper's callback: from its true edge every path reaches a call of the action (or fails
+		// the walk), and from the entry of the action every path reaches the copy (or fails the walk); the helper's callback
+		// returns what the action answers (c20Delegates)
+		hk := k.via.hk
+		regH := "T(call:(io/fs.FileMode).IsRegular(call:invoke:io/fs.FileInfo.Mode(call:invoke:io/fs.DirEntry.Info(param:" + hk.entryParam().Name() + ")#0)))"
+		okAll = c20EveryPathReaches(w, hk.cb, regH, k.via.calls) && c20FromEntryReaches(w, cl, cp)
 	}
 	c.Evals += 2
 	c.Check(labelHas(g, reg) && okArgs && okErr && okAll, "copy/directory", "the directory copy hands every regular top-level entry (judged on the entry's own Info), and nothing else, to the single-file copy with the destination directory, and returns its error", w.InstrPos(cp),
